@@ -129,6 +129,20 @@ func c09Main(r *run.Runner) {
 			}
 		}
 	})
+	// every rune directly after hex digits, decimal digits, an identifier, and after a blank between two tokens
+	// (character classes taken from a Unicode table that is wider than the token definitions)
+	r.Sweep("rune-contexts", (0x110000-0x80+4095)/4096, func(w *run.Worker, item int64) {
+		for cp := 0x80 + int(item)*4096; cp < 0x80+int(item+1)*4096 && cp < 0x110000; cp++ {
+			if cp >= 0xD800 && cp < 0xE000 {
+				continue
+			}
+			s := string(rune(cp))
+			c09One(w, "0x1"+s+"f")
+			c09One(w, "1"+s+"2e"+s+"3")
+			c09One(w, "a"+s+"b "+s+"c")
+			c09One(w, "a "+s+"b ."+s)
+		}
+	})
 	// decimal literals with 1-3 mantissa digits, with and without fraction, with every exponent of ordinary magnitude
 	// (numeric accessors agree with the spelling)
 	r.Sweep("float-literals", 999, func(w *run.Worker, item int64) {
@@ -158,12 +172,13 @@ func c09Main(r *run.Runner) {
 	r.Sweep("long-strings", int64(len(lens)), func(w *run.Worker, item int64) {
 		n := lens[item]
 		for _, fill := range []string{"A", " ", "-", "x", "n"} {
-			for _, special := range []string{"\n", "\r", "\r\n", "\\", "'", "\"", "`", "\\n", "\\'", "\x00", "é"} {
+			for _, special := range []string{"\n", "\r", "\r\n", "\\", "'", "\"", "`", "\\n", "\\'", "\x00", "é", "``", "''", "\"\"", "``\n", "``x\n`"} {
 				for _, pos := range []int{0, n / 2, n} {
 					body := strings.Repeat(fill, pos) + special + strings.Repeat(fill, n-pos)
 					for _, q := range []string{"'", "\"", "`"} {
 						c09One(w, "let b = "+q+body+q+";\nT | where m == b")
 						c09One(w, q+body)
+						c09One(w, "T | where "+q+body+"\n| take `n`; U | where x == 'y' // `\n; V")
 					}
 				}
 			}
